@@ -2,7 +2,13 @@
 custom node, empty defaultdict with a default_factory, empty deque, namedtuple class of zero fields) and of treespecs derived
 from them (child, children, one_level, compose, transform, pickle round trip) are reclaimed by the garbage collector;
 (b) a failing broadcast_to_common_suffix / is_prefix / flatten_up_to leaves BOTH operand treespecs unchanged, for operands
-made in insertion-ordered mode whose dict / defaultdict / OrderedDict keys are not in sorted order.  Exhaustive over the grid."""
+made in insertion-ordered mode whose dict / defaultdict / OrderedDict keys are not in sorted order; (c) a treespec made
+before a custom type was unregistered / re-registered with other functions / shadowed by a namespace registration keeps
+describing the old structure: its flatten_up_to either refuses (ValueError) or is consistent with its own unflatten, paths and
+entries - never a mixture of the old and the new registration; (d) a callback that runs during flattening (is_leaf, a custom
+child's flatten function) and deletes / re-inserts / clears keys of a dict whose keys were already read: the treespec and the
+leaves returned describe one consistent structure (unflatten works, also after a pickle round trip, and yields the keys as they
+were read) for every flatten entry point.  Exhaustive over the grid."""
 from ocv.bounded._extra import run_core
 
 CORE = r'''
@@ -43,7 +49,126 @@ DERIVE = {
     'broadcast': lambda ts: ts.broadcast_to_common_suffix(ts),
 }
 
+NS3 = 'c14x'
+class Vec:
+    def __init__(self, a, b): self.a, self.b = a, b
+    def __eq__(self, o): return type(o) is Vec and (o.a, o.b) == (self.a, self.b)
+    def __repr__(self): return f'Vec({self.a!r}, {self.b!r})'
+REGS = {'ab': (lambda v: ((v.a, v.b), None, ('a', 'b')), lambda m, c: Vec(c[0], c[1])),
+        'ba': (lambda v: ((v.b, v.a), None, ('b', 'a')), lambda m, c: Vec(c[1], c[0])),
+        'ab_noentries': (lambda v: ((v.a, v.b), None), lambda m, c: Vec(c[0], c[1])),
+        'ba_noentries': (lambda v: ((v.b, v.a), None), lambda m, c: Vec(c[1], c[0]))}
+
+def unreg(ns):
+    try: optree.unregister_pytree_node(Vec, namespace=ns)
+    except ValueError: pass
+
+def reregistration_case(first, second, how):
+    bad = []
+    GLOB = next(v for k, v in optree.registry.__dict__.items() if k.endswith('GLOBAL_NAMESPACE'))
+    unreg(NS3); unreg(GLOB)
+    try:
+        optree.register_pytree_node(Vec, *REGS[first], namespace=(GLOB if how == 'shadow' else NS3))
+        tree = [Vec('x', 'y'), {'k': Vec(1, 2)}]
+        old = optree.tree_structure(tree, namespace=NS3)
+        before = (repr(old), old.paths(), old.entries(), repr(old.unflatten(['p', 'q', 'r', 's'])))
+        if how == 'shadow':
+            optree.register_pytree_node(Vec, *REGS[second], namespace=NS3)
+        else:
+            unreg(NS3)
+            if how == 'reregister':
+                optree.register_pytree_node(Vec, *REGS[second], namespace=NS3)
+        after = (repr(old), old.paths(), old.entries(), repr(old.unflatten(['p', 'q', 'r', 's'])))
+        what = f'treespec made under registration {first}, then {how} with {second}'
+        if after != before:
+            bad.append(('C14.treespec_survives_registry_changes', f'{what}: repr / paths / entries / unflatten changed: {before!r} -> {after!r}'))
+        try:
+            parts = old.flatten_up_to(tree)
+        except ValueError:
+            parts = None                       # refusing is allowed
+        except Exception as e:
+            bad.append(('C14.treespec_survives_registry_changes', f'{what}: flatten_up_to raised {type(e).__name__}: {e}'))
+            parts = None
+        if parts is not None:
+            rebuilt = old.unflatten(parts)
+            if rebuilt != tree:
+                bad.append(('C14.treespec_survives_registry_changes', f'{what}: old.unflatten(old.flatten_up_to(tree)) = {rebuilt!r}, tree = {tree!r} (children of one registration rebuilt by the other)'))
+    finally:
+        unreg(NS3); unreg(GLOB)
+    return bad
+
+class Trigger:
+    """custom leaf-like node whose flatten function mutates a dict that is being flattened"""
+    def __init__(self, action): self.action = action; self.target = None
+def _flat_trigger(t):
+    d = t.target
+    if d is not None:
+        if t.action == 'delete': d.pop('z', None)
+        elif t.action == 'reinsert':
+            if 'a' in d: v = d.pop('a'); d['a'] = v
+        elif t.action == 'clear':
+            keep = d.get('t'); d.clear()
+        elif t.action == 'add': d['new'] = 0
+    return ((), None)
+import sys as _sys, types as _types
+_mod = _sys.modules.setdefault('c14x_mod', _types.ModuleType('c14x_mod'))      # pickle stores classes by reference
+if hasattr(_mod, 'Trigger'):
+    Trigger = _mod.Trigger
+else:
+    Trigger.__module__, Trigger.__qualname__ = 'c14x_mod', 'Trigger'
+    _mod.Trigger = Trigger
+try:
+    optree.register_pytree_node(Trigger, _flat_trigger, lambda m, c: Trigger('none'), namespace=NS3)
+except ValueError:
+    pass
+
+def mutation_case(action, kind, entry, via):
+    bad = []
+    def build():
+        t = Trigger(action if via == 'custom_child' else 'none')
+        items = [('z', 1), ('a', 2), ('t', t), ('m', 3)]
+        d = {'dict': dict, 'defaultdict': lambda it: collections.defaultdict(list, it), 'OrderedDict': collections.OrderedDict}[kind](items)
+        t.target = d
+        return d, t
+    d, t = build()
+    keys_read = list(d)
+    def pred(x):
+        if via == 'is_leaf' and x == 2:         # runs after the keys of d were read
+            tt = Trigger(action); tt.target = d; _flat_trigger(tt)
+        return False
+    kw = dict(namespace=NS3, is_leaf=(pred if via == 'is_leaf' else None))
+    try:
+        if entry == 'tree_flatten': leaves, ts = optree.tree_flatten(d, **kw)
+        elif entry == 'tree_flatten_with_path': _, leaves, ts = optree.tree_flatten_with_path(d, **kw)
+        else: _, leaves, ts = optree.tree_flatten_with_accessor(d, **kw)
+    except Exception:
+        return bad                              # failing cleanly is acceptable
+    what = f'{entry} of a {kind} while a {via} callback does {action} on it after its keys {keys_read!r} were read'
+    for label, spec in (('the treespec', ts), ('its pickle round trip', None)):
+        try:
+            if spec is None:
+                spec = pickle.loads(pickle.dumps(ts))
+            rebuilt = spec.unflatten(leaves)
+        except Exception as e:
+            bad.append(('C14.treespec_describes_the_structure_that_was_read', f'{what}: {label}: unflatten(leaves) raised {type(e).__name__}: {e}'))
+            continue
+        if kind != 'OrderedDict' and sorted(map(str, rebuilt)) != sorted(map(str, keys_read)) and list(rebuilt) != list(ts.entries()):
+            bad.append(('C14.treespec_describes_the_structure_that_was_read', f'{what}: {label} rebuilds keys {list(rebuilt)!r}, entries {ts.entries()!r}'))
+        if len(rebuilt) != ts.num_children:
+            bad.append(('C14.treespec_describes_the_structure_that_was_read', f'{what}: {label} rebuilds {len(rebuilt)} keys for {ts.num_children} children'))
+        if kind != 'OrderedDict' and via == 'is_leaf' and action == 'reinsert' and list(rebuilt) != keys_read:
+            bad.append(('C14.treespec_describes_the_structure_that_was_read', f'{what}: {label} rebuilds the key order {list(rebuilt)!r}; the keys were read as {keys_read!r}'))
+    return bad
+
 def cases(tier):
+    for first, second in (('ab', 'ba'), ('ba', 'ab'), ('ab_noentries', 'ba_noentries'), ('ab', 'ab')):
+        for how in ('reregister', 'unregister', 'shadow'):
+            yield ('rereg', first, second, how)
+    for action in ('delete', 'reinsert', 'clear', 'add'):
+        for kind in ('dict', 'defaultdict', 'OrderedDict'):
+            for entry in ('tree_flatten', 'tree_flatten_with_path', 'tree_flatten_with_accessor'):
+                for via in ('is_leaf', 'custom_child'):
+                    yield ('mutate', action, kind, entry, via)
     for kind in ('custom0', 'custom2', 'ddict0', 'ddict1', 'dictkey', 'nested0'):
         for d in DERIVE:
             yield ('gc', kind, d)
@@ -56,6 +181,10 @@ def snapshot(ts):
             repr(ts.unflatten(range(ts.num_leaves))))
 
 def check(spec):
+    if spec[0] == 'rereg':
+        return reregistration_case(*spec[1:])
+    if spec[0] == 'mutate':
+        return mutation_case(*spec[1:])
     bad = []
     if spec[0] == 'gc':
         _, kind, d = spec
